@@ -478,6 +478,96 @@ def check_full_batch(ctx, cases, label, stats, timeout_ms=20000, env_extra=None)
 
 # ----------------------------------------------------------------------------------------------
 
+# ----------------------------------------------------------------------------------------------
+# entry-point decision table (deterministic): what counts as a program entry point, each dimension varied one at a
+# time + a few pairs; bodies of generic variants use every in-scope type parameter in a lambda parameter, a generic
+# call and a local annotation.  Every module in turn is the entry point.  Expected column = Model/EntryPoint.lean
+# (`moduleHasEntry`, asked through the driver) from the row's declaration facts.
+
+def entry_table():
+    P = 'Process.println("x")'
+    IMP = "import { Option } from std.option\n"
+    BOX = "class Box<A>(val a: A) { function <A> make(a: A): Box<A> = Box.init(a) }\n"
+
+    def gbody(vs):
+        v0 = vs[0]
+        params = ", ".join(f"x{i}: {v}" for i, v in enumerate(vs))
+        locs = " ".join(f"let o{i}: Option<{v}> = Option.None<{v}>(); let _ = o{i};" for i, v in enumerate(vs))
+        return "{ let f = (" + params + f") -> x0; {locs} let b = Box.make(f); let _ = b; " + P + " }"
+    # spec of a module = list of classes "isMainType:nClassTparams:member,member" with members "<isMainName><isMethod><nParams><nTparams>"
+    rows = [
+        ("canonical", {"Main": (f"class Main {{ function main(): unit = {P} }}", "1:0:1000")}),
+        ("class-name-other", {"Main": (f"class Main2 {{ function main(): unit = {P} }}", "0:0:1000")}),
+        ("interface-Main", {"Main": ("interface Main { method main(): unit }", "")}),
+        ("fn-name-other", {"Main": (f"class Main {{ function main2(): unit = {P} }}", "1:0:0000")}),
+        ("method-main", {"Main": (f"class Main {{ method main(): unit = {P} }}", "1:0:1100")}),
+        ("arity-1", {"Main": (f"class Main {{ function main(a: int): unit = {P} }}", "1:0:1010")}),
+        ("returns-int", {"Main": ("class Main { function main(): int = 1 }", "1:0:1000")}),
+        ("returns-str", {"Main": ('class Main { function main(): Str = "s" }', "1:0:1000")}),
+        ("generic-unused", {"Main": (f"class Main {{ function <T> main(): unit = {P} }}", "1:0:1001")}),
+        ("generic-used", {"Main": (IMP + BOX + f"class Main {{ function <T> main(): unit = {gbody(['T'])} }}", "0:1:0011/1:0:1001")}),
+        ("generic-two", {"Main": (IMP + BOX + f"class Main {{ function <T, R> main(): unit = {gbody(['T', 'R'])} }}", "0:1:0011/1:0:1002")}),
+        ("generic-class-static-main", {"Main": (IMP + BOX + "class Main<T>(val t: Option<T>) { function main(): unit = " + P
+                                                + f" function <T> other(): unit = {gbody(['T'])} }}", "0:1:0011/1:1:1000,0001")}),
+        ("generic-class-method-main", {"Main": (IMP + BOX + f"class Main<T>(val t: Option<T>) {{ method main(): unit = {gbody(['T'])} }}", "0:1:0011/1:1:1100")}),
+        ("generic-method-main", {"Main": (IMP + BOX + f"class Main {{ method <T> main(): unit = {gbody(['T'])} }}", "0:1:0011/1:0:1101")}),
+        ("generic-class-generic-method-main", {"Main": (IMP + BOX + f"class Main<T>(val t: Option<T>) {{ method <R> main(): unit = {gbody(['T', 'R'])} }}", "0:1:0011/1:1:1101")}),
+        ("private-fn", {"Main": (f"class Main {{ private function main(): unit = {P} }}", "1:0:1000")}),
+        ("private-class", {"Main": (f"private class Main {{ function main(): unit = {P} }}", "1:0:1000")}),
+        ("private-generic", {"Main": (IMP + BOX + f"class Main {{ private function <T> main(): unit = {gbody(['T'])} }}", "0:1:0011/1:0:1001")}),
+        ("two-modules-with-Main", {"Main": (f"class Main {{ function main(): unit = {P} }}", "1:0:1000"),
+                                   "Other": ('class Main { function main(): unit = Process.println("o") }', "1:0:1000")}),
+        ("entry-module-without-Main", {"Main": ("class Helper { function h(): int = 1 }", "0:0:0000"),
+                                       "Other": (f"class Main {{ function main(): unit = {P} }}", "1:0:1000")}),
+        ("Main-without-main", {"Main": ("class Main { function notMain(): int = 1 }", "1:0:0000")}),
+        ("main-in-imported-module", {"Main": ("import { Lib } from Other\nclass Main { function main(): unit = Lib.go() }", "1:0:1000"),
+                                     "Other": (f"class Lib {{ function go(): unit = {P} }} class Main {{ function main(): unit = {P} }}", "0:0:0000/1:0:1000")}),
+        ("generic-main-in-other-module", {"Main": (f"class Main {{ function main(): unit = {P} }}", "1:0:1000"),
+                                          "Other": (IMP + BOX + f"class Main {{ function <T> main(): unit = {gbody(['T'])} }}", "0:1:0011/1:0:1001")}),
+        ("main-plus-generic-helper", {"Main": (IMP + BOX + "class Main { function <T> helper(x: T): Box<T> = Box.make(x) function main(): unit = "
+                                               "{ let _ = Main.helper(1); let _ = Main.helper(\"s\"); " + P + " } }", "0:1:0011/1:0:0011,1000")}),
+        ("empty-module", {"Main": ("", "")}),
+        ("static-main-and-method-main2", {"Main": (f"class Main {{ function main(): unit = {P} method main2(): unit = {P} }}", "1:0:1000,0100")}),
+    ]
+    return rows
+
+
+def check_entry_table(ctx, stats):
+    rows = entry_table()
+    try:
+        common.build_exec()
+    except common.BuildError as e:
+        ctx.violation("exec oracle no longer builds", {"broken": e.what, "log": e.log[-1500:]}, no_input=True)
+        return 0
+    progs, keys, specs = [], [], []
+    for name, mods in rows:
+        for entry in mods:
+            progs.append({"sources": {m: t for m, (t, _) in mods.items()}, "entry": entry, "std": True, "ts": True, "timeout_ms": 10000})
+            keys.append((name, entry)); specs.append(mods[entry][1])
+    answers = common.exec_programs(progs)
+    rc, model, _ = common.run_exec(common.driver_bin(PROP), [], ["entry " + (sp or "0:0:0000") for sp in specs])
+    for (name, entry), prog, a, sp, want in zip(keys, progs, answers, specs, model + ["?"] * len(specs)):
+        stats["entry"][a.get("compile", "?")] = stats["entry"].get(a.get("compile", "?"), 0) + 1
+        bad = None
+        w, t = a.get("wasm") or {}, a.get("ts") or {}
+        no_node = str(w.get("end", "")).startswith("no-node")
+        missing_main = lambda r: str(r.get("end", "")).startswith("load-error") and "main" in str(r.get("end"))
+        if a.get("compile") == "panic":
+            bad = f"compile_sources panicked on an accepted program: {a.get('msg', '')[:160]}"
+        elif a.get("compile") == "errors":
+            bad = f"a table row is rejected ({a.get('msg', '')[:120]}): the table itself is wrong"
+        elif not no_node and want == "1" and not (w.get("end") == "ok" and t.get("end") == "ok"):
+            bad = f"the module has an entry point by the documented rule, but the emitted program ends wasm={w.get('end')} ts={t.get('end')}"
+        elif not no_node and want == "0" and not (missing_main(w) and missing_main(t)):
+            bad = (f"the module has NO entry point by the documented rule (Main.main must be a static, parameterless, non-generic function), "
+                   f"but the emitted program ends wasm={w.get('end')} ts={t.get('end')}")
+        if bad and stats["reported"] < 3:
+            stats["reported"] += 1
+            ctx.violation(f"entry-point decision table, row `{name}` with entry module {entry}: {bad}",
+                          {"protocol": "entry", "row": name, "program": prog, "answer": a, "model_isEntry": want})
+    return len(progs)
+
+
 def repo_sources():
     out = []
     for f in sorted(glob.glob(os.path.join(common.REPO, "tests", "*.sam"))) + sorted(glob.glob(os.path.join(common.REPO, "std", "*.sam"))):
@@ -523,7 +613,7 @@ def read_corpus(prop):
 def run(ctx):
     rng = ctx.rng
     extractor_ok = run_extractor(ctx)
-    stats = {"kinds": {}, "errs": {}, "full": {}, "outcome": {}, "reported": 0}
+    stats = {"kinds": {}, "errs": {}, "full": {}, "outcome": {}, "reported": 0, "entry": {}}
 
     def search():
         # a broken proof/tie: look for a concrete failing input with the implementation-side oracle
@@ -710,6 +800,10 @@ def run(ctx):
                               {"protocol": "expr", "text": e, "impl": a, "impl_decoded": describe_full(a)})
         ddone += len(exprs)
 
+    # 4c. the entry-point decision table through the shared exec oracle (compile in-process + run wasm and TS)
+    if not ctx.violations:
+        ddone += check_entry_table(ctx, stats)
+
     # 5. deterministic family of "small input, huge work" shapes + one probe per open finding of that class
     def iface_chain(k):
         return ("interface I1 {}\n" + "".join(f"interface I{i} : I{i-1}, I{i-1} {{}}\n" for i in range(2, k + 1))
@@ -742,6 +836,7 @@ def run(ctx):
         "lex_cases": done, "full_cases": fdone,
         "lex_generator_histogram": gen_hist, "full_generator_histogram": fhist,
         "token_kind_histogram": stats["kinds"], "syntax_error_histogram": stats["errs"],
+        "entry_table_compile_histogram": stats["entry"],
         "full_answer_histogram": stats["full"], "full_outcome_histogram": stats["outcome"],
         "limits": {"max_text_bytes_quick": 9000, "nesting_depth": real_depth, "entry_point_stacks_mb": cfg,
                    "stack": "64 MiB (worker thread and rayon pool) for the fuzz streams",
@@ -774,6 +869,11 @@ def replay(ctx, path):
         for m in orc:
             print("ORACLE", m)
         return 1 if orc or canon_impl(impl[0]) != model[0] else 0
+    if rp.get("protocol") == "entry":
+        common.build_exec()
+        a = common.exec_programs([rp["program"]])[0]
+        print(json.dumps(rp["program"])[:1500]); print(json.dumps(a)[:600])
+        return 1 if a.get("compile") == "panic" else 0
     if rp.get("protocol") == "expr":
         rc, a, _ = common.run_exec(common.harness_bin(PROP), [], ["expr " + hexs(rp["text"].encode())])
         print("text", json.dumps(rp["text"])); print("impl", describe_full(a[0] if a else "crash"))
